@@ -223,6 +223,71 @@ class Check:
                       if k['property'] == pid]
         self.extra = {}
         self.lean_ok = True
+        self._cov = None
+        if os.environ.get('VERIF_ANCHOR_COV', '1') != '0':
+            self._start_anchor_coverage()
+
+    # -- how much of the anchored code the correspondence stream executes ------
+    def _start_anchor_coverage(self):
+        """Line coverage (coverage.py, in-process only) of the functions the property is anchored in
+        (harness/anchor_functions.json, resolved once from properties.jsonl at the pinned commit; matched
+        by qualified name on the current tree). Reported in the evidence; never affects the verdict."""
+        try:
+            import coverage
+            fns = json.load(open(os.path.join(VERIF, 'harness', 'anchor_functions.json')))['functions'].get(self.pid, {})
+            self._cov_fns = fns
+            files = [os.path.join(REPO, f) for f in fns]
+            if not files:
+                return
+            self._cov = coverage.Coverage(data_file=None, include=files, config_file=False)
+            self._cov.start()
+        except Exception as e:  # measuring is optional
+            self._cov = None
+            self.notes.append('anchor coverage not measured: %r' % (e,))
+
+    def _anchor_coverage(self):
+        import ast
+        self._cov.stop()
+        out, tot, hit_tot = {}, 0, 0
+        for rel, names in self._cov_fns.items():
+            path = os.path.join(REPO, rel)
+            try:
+                _, executable, _, missing, _ = self._cov.analysis2(path)
+            except Exception:
+                executable, missing = [], []
+                # never imported by this harness
+                out[rel] = {'note': 'file not executed by this harness'}
+            spans = {}
+
+            def walk(node, prefix):
+                for ch in ast.iter_child_nodes(node):
+                    if isinstance(ch, (ast.FunctionDef, ast.AsyncFunctionDef, ast.ClassDef)):
+                        q = prefix + ch.name
+                        spans[q] = (ch.lineno, ch.end_lineno)
+                        walk(ch, q + '.')
+            try:
+                walk(ast.parse(open(path).read()), '')
+            except Exception:
+                continue
+            per = {}
+            for q in names:
+                if q not in spans:
+                    per[q] = 'not found on this tree'
+                    continue
+                lo, hi = spans[q]
+                ex = [l for l in executable if lo < l <= hi]   # body, not the def line
+                ms = [l for l in ex if l in set(missing)]
+                if not executable:
+                    ms = ex = []
+                tot += len(ex)
+                hit_tot += len(ex) - len(ms)
+                per[q] = {'executable': len(ex), 'hit': len(ex) - len(ms), 'missing_lines': ms[:40]}
+            if rel in out and 'note' in out[rel]:
+                per['_note'] = out[rel]['note']
+            out[rel] = per
+        return {'tool': 'coverage.py line coverage, in-process (forked workers / CLI subprocesses are not traced)',
+                'executable_lines': tot, 'hit_lines': hit_tot,
+                'percent': round(100.0 * hit_tot / tot, 1) if tot else None, 'functions': out}
 
     # -- infrastructure -----------------------------------------------------
     def _on_alarm(self, *a):
@@ -417,6 +482,11 @@ class Check:
             'notes': self.notes,
             'repo': REPO,
         }
+        if self._cov is not None:
+            try:
+                cov['anchor_line_coverage'] = self._anchor_coverage()
+            except Exception as e:
+                cov['anchor_line_coverage'] = {'error': repr(e)}
         if self.level == 'other':
             cov['explanation'] = self.extra.pop('explanation', '')
         cov.update(self.extra)
